@@ -360,7 +360,7 @@ func main() {
 		}
 	}
 	r := hx.Rand()
-	progs := 300
+	progs := 700
 	if hx.Thorough() {
 		progs = 6000
 	}
